@@ -161,19 +161,19 @@ Theorem C24_rel_sound_acc : forall g1 g2 ne alts R input orc,
 Proof. exact rel_sound_acc. Qed.
 Print Assumptions C24_rel_sound_acc.
 
-(* per run: in weak mode the differing pairs of the two live models are within the 11 accepted ones
-   (8 behind the four known findings, rrel_sequence, rrel_path.0, rule_ref) *)
+(* per run: in weak mode the differing pairs of the two live models are within the 10 accepted ones
+   (8 behind the four known findings, rrel_sequence, rrel_path.0) *)
 Theorem C24_diffs_acc :
   incl_b (diff_labels lang_labels tx_labels
             (peg_equiv_diffs_acc textx_ne textx_alts (seeds_of lang_labels tx_labels textx_seeds) lang_grammar tx_grammar))
          textx_accepted_diffs_acc = true
-  /\ length textx_accepted_diffs_acc = 11 /\ c_skipws lang_config = true
+  /\ length textx_accepted_diffs_acc = 10 /\ c_skipws lang_config = true
   /\ length textx_alts = length textx_alt_patterns.
 Proof. vm_compute. repeat split. Qed.
 Print Assumptions C24_diffs_acc.
 
 (* the two live parser models accept the same texts, for every oracle satisfying the two checked hypotheses,
-   PROVIDED the 11 accepted pairs are related (false for the 8 finding pairs, unproved for 3 notation pairs) *)
+   PROVIDED the 10 accepted pairs are related (false for the 8 finding pairs, open for the 2 RREL notation pairs) *)
 Theorem C24_textx_accepts_modulo_accepted : forall input orc,
   orc_nonempty textx_ne orc -> orc_alts textx_alts orc ->
   (forall p, In p textx_R -> accepted_pair_acc p = true -> sem_okW lang_grammar tx_grammar textx_ne input orc p) ->
@@ -204,3 +204,12 @@ Example C24_tail_form_differs :
   accepts (run g_t1 cfg0 no_orc false 40 [120; 44; 120]%N) = true /\ accepts (run g_t2 cfg0 no_orc false 40 [120; 44; 120]%N) = true.
 Proof. exact tail_form_differs. Qed.
 Print Assumptions C24_tail_form_differs.
+
+(* the mirrored rule: one regex against a choice of two regexes of the second grammar, one of them wrapped *)
+Example C24_nonvacuous_alts_r :
+  peg_equiv_diffs_acc [0; 1] [(0, 1, 2)] [] g_c2 g_c3 = [] /\
+  peg_equiv_diffs [0; 1] [] g_c2 g_c3 <> [] /\
+  accepts (run g_c2 cfg0 orc_ex false 30 [98]%N) = true /\ accepts (run g_c3 cfg0 orc_ex false 30 [98]%N) = true /\
+  accepts (run g_c2 cfg0 orc_ex false 30 [98; 98]%N) = false /\ accepts (run g_c3 cfg0 orc_ex false 30 [98; 98]%N) = false.
+Proof. exact witness_alts_r. Qed.
+Print Assumptions C24_nonvacuous_alts_r.
